@@ -240,19 +240,45 @@ func AddStandardFilters(fd FilterDictionary) { //nolint: gocyclo
 	fd.AddFilter("truncate", func(s string, length func(int) int, ellipsis func(string) string) string {
 		n := length(50)
 		el := ellipsis("...")
-		// runes aren't bytes; don't use slice
-		re := regexp.MustCompile(fmt.Sprintf(`^(.{%d})..{%d,}`, n-len(el), len(el)))
-		return re.ReplaceAllString(s, `$1`+el)
+		// count characters (runes), not bytes
+		rs := []rune(s)
+		if len(rs) <= n {
+			return s
+		}
+		// keep n characters in all, the ellipsis included
+		keep := 0
+		if k := len([]rune(el)); n > k {
+			keep = n - k
+		}
+		return string(rs[:keep]) + el
 	})
 	fd.AddFilter("truncatewords", func(s string, length func(int) int, ellipsis func(string) string) string {
 		el := ellipsis("...")
 		n := length(15)
-		re := regexp.MustCompile(fmt.Sprintf(`^(?:\s*\S+){%d}`, n))
-		m := re.FindString(s)
-		if m == "" {
-			return s
+		if n < 1 {
+			n = 1
 		}
-		return m + el
+		// a word is a maximal run of non-whitespace bytes
+		isSpace := func(c byte) bool {
+			return c == ' ' || c == '\t' || c == '\n' || c == '\f' || c == '\r'
+		}
+		end := 0
+		for i, words := 0, 0; ; words++ {
+			for i < len(s) && isSpace(s[i]) {
+				i++
+			}
+			if i == len(s) {
+				// at most n words: nothing to cut
+				return s
+			}
+			if words == n {
+				return s[:end] + el
+			}
+			for i < len(s) && !isSpace(s[i]) {
+				i++
+			}
+			end = i
+		}
 	})
 	fd.AddFilter("upcase", func(s, suffix string) string {
 		return strings.ToUpper(s)
